@@ -134,7 +134,7 @@ CROSS_HEADER = {'host_machine': {'system': "'linux'", 'cpu_family': "'x86_64'", 
 
 
 def scenario_argv(sc: dict, root: str) -> T.List[str]:
-    argv = ['setup', '--backend=none']
+    argv = ['setup', '--backend=' + sc.get('backend', 'none')]
     if sc.get('mfile') is not None:
         argv += ['--cross-file' if sc.get('cross') else '--native-file', os.path.join(root, 'machine.ini')]
     if sc.get('native_for_cross') is not None:
@@ -166,9 +166,10 @@ def run_scenario(sc: dict, root: str, inproc: bool = True) -> T.Any:
         shutil.rmtree(root)
     mesondrv.write_tree(root, scenario_files(sc))
     argv = scenario_argv(sc, root)
+    env = {'NINJA': mesondrv.FAKENINJA} if sc.get('backend') == 'ninja' else None     # backend options exist only with a backend
     if inproc:
-        return mesondrv.run_inproc(argv)
-    return mesondrv.run_sub(argv)
+        return mesondrv.run_inproc(argv, env=env)
+    return mesondrv.run_sub(argv, env=env)
 
 
 def observed(res: T.Any) -> T.Tuple[T.Dict[str, str], T.Dict[str, str], T.Dict[str, str]]:
@@ -768,10 +769,10 @@ def _top_shard(shard: T.Tuple[T.List[T.Any], bool, int], ev: Evidence, fails: T.
     bucket = Bucket()
     ibucket: T.List[Failure] = []
     for entry in entries:
-        if entry[0] == 'builtin':
+        if entry[0] in ('builtin', 'builtin-ninja'):
             _, name, typ, default, pool = entry
             project_opt, decl, sub_same = False, None, True
-            group = 'top-order:builtin' + (':cross' if cross else '')
+            group = ('top-order:builtin' if entry[0] == 'builtin' else 'top-order:backend-option') + (':cross' if cross else '')
         else:
             _, ptype, explicit = entry
             p = PTYPES[ptype]
@@ -785,6 +786,8 @@ def _top_shard(shard: T.Tuple[T.List[T.Any], bool, int], ev: Evidence, fails: T.
         for bits in range(8):
             mask = (bits & 1) | (bits >> 1 & 1) << 2 | (bits >> 2 & 1) << 3
             sc = sp_cell(name, typ, vals, mask, project_opt=project_opt, cross=cross)
+            if entry[0] == 'builtin-ninja':
+                sc['backend'] = 'ninja'
             if decl:
                 sc['top_options'] = decl
             if typ != 'umask':
@@ -914,7 +917,10 @@ def derived_prefix_cell(pmask: int, E: T.Optional[int], rot: int, cross: bool = 
     for j, i in enumerate(TOP_SRC):
         if pmask >> j & 1:
             mask |= 1 << i
-            add_source(sc, 'prefix', 'str', i, pvals[i])
+            # the same directory may be spelled with a trailing slash (stored without it: unittests pin sanitize_prefix());
+            # the prefix-dependent defaults belong to the directory, not to the spelling
+            spelled = pvals[i] + '/' if (rot + j) % 3 == 1 and pvals[i] != '/' else pvals[i]
+            add_source(sc, 'prefix', 'str', i, spelled)
     prefix, wp = fold(TOP_SRC, mask, pvals, '/usr/local')
     expect: dict = {'top': {'prefix': prefix}, 'sp': {'prefix': prefix}, 'winner': {}}
     for n, (d, table) in enumerate(sorted(PREFIX_DIRS.items())):
@@ -1011,6 +1017,8 @@ def value_strategy(typ: str, spec: T.Any) -> T.Any:
         return st.one_of(st.integers(vlo, vhi).map(lambda n: (str(n), True, n)),
                          st.sampled_from([vlo, vhi] if hi is not None or lo is not None else [0]).map(lambda n: (str(n), True, n)),
                          st.one_of(*outs).map(lambda n: (str(n), False, None)),
+                         # a boolean is not an integer (through a machine file it arrives as a native boolean, see validity_scenario)
+                         st.sampled_from([('true', False, None), ('false', False, None)]),
                          inv(st.one_of(st.sampled_from(['abc', '1.5', '', '0x10', '1e3', '--1', '1 2', 'one', 'true', '3,4', '[3]']), text), not_int))
     if typ == 'combo':
         ch = list(spec)
@@ -1068,6 +1076,10 @@ def validity_scenario(case: dict) -> T.Tuple[dict, str, str, str]:
         src = CHANNELS[where][ch]
         if ch == 'mfile' and (typ == 'array' or (case['valid'] and case['native_literal'] and typ in ('bool', 'int'))):
             add_source(sc, name, typ, src, case['value'], project_opt)      # typed machine-file literal
+        elif ch not in ('cmdline',) and typ == 'int' and not case['valid'] and case['raw'] in ('true', 'false') and case['native_literal']:
+            add_source(sc, name, 'bool', src, case['raw'] == 'true', project_opt)   # unquoted true/false: a native boolean
+            if ch != 'mfile':
+                sc['defaults_form'] = 'dict'      # ... which default_options can only carry in its dictionary form
         else:
             add_source(sc, name, 'str', src, case['raw'], project_opt)
     if typ != 'umask':
@@ -1562,6 +1574,7 @@ def run(ctx: Ctx) -> None:
     # (b) top-level order
     ents: T.List[T.Any] = [('builtin', e[0], e[1], e[2], e[3]) for e in globals_]
     ents.append(('builtin', 'install_umask', 'umask', '022', ['022', '0027', '0077', 'preserve', '0002', '0777']))
+    ents.append(('builtin-ninja', 'backend_max_links', 'int', 0, [0, 3, 5, 7, 9]))      # configured with the ninja backend
     ents += [('project', pt, ex) for pt in PTYPES for ex in (True, False) if ex or PTYPES[pt]['implicit'] is not None]
     for cross in (False, True):
         for es in chunks(ents, 6):
